@@ -151,6 +151,17 @@ theorem tok_holder {th : Thread} (h : TOK th = true) :
   · intro op ha hpc; simp [TOK, hpc, ha] at h; exact h.2
   · intro op ha hpc; simp [TOK, hpc, ha] at h; exact h.1
 
+/-- only the two blocking lock calls ever reach a condition-variable wait, each on its own
+    condition variable; a trylock (or unlock) call is never at, inside, or returning from a wait -/
+theorem tok_wait {th : Thread} {op : Op} {cv : Cv} (h : TOK th = true)
+    (hpc : th.pc = .atWait op cv ∨ th.pc = .blocked op cv ∨ th.pc = .woken op cv) :
+    (op = .rlock ∧ cv = .read) ∨ (op = .wlock ∧ cv = .write) := by
+  rcases hpc with hpc | hpc | hpc <;>
+    (simp [TOK, hpc, waitOK] at h
+     rcases h with ⟨⟨h | h, _⟩, _⟩
+     · exact Or.inl h
+     · exact Or.inr h)
+
 /-! ### posix wrapper over the trusted pthread rwlock -/
 namespace Posix
 
